@@ -59,6 +59,38 @@ def _betas_table(facts, n):
             if rng == "std::ops::Range{start:0, end:%s}" % P and nf.nf(cl["body"], True).find(P) >= 0 and hirq.show_pat(cl["params"][0]) != "_":
                 v = hirq.show_pat(cl["params"][0])
                 return [symeval.ev(cl["body"], {P: n, v: t}) for t in range(n)]
+    # push-loop idiom: `let mut betas = Vec::with_capacity(m); for x in 0..m { [immutable lets;] betas.push(e(x)) }`
+    R = resolver_of(fn)
+    t = tree_of(fn)
+    tab = [f_["e"] for x in hirq.walk(fn["hir"]) if x["k"] == "Struct" for f_ in x["fields"] if f_["name"] == "betas"]
+    if tab and nf.strip(tab[0])["k"] == "Path" and "local" in nf.strip(tab[0])["res"]:
+        tname = nf.strip(tab[0])["res"]["name"]
+        pushes = [x for x in user_nodes(fn) if x["k"] == "MethodCall" and x["name"] == "push" and nf.nf(x["recv"]) == tname]
+        fls = [f for f in for_loops(fn) if pushes and t.contains(f["body"], pushes[0])]
+        if len(pushes) == 1 and len(fls) == 1 and nf.nf(fls[0]["iter"], True, res=R) == "std::ops::Range{start:0, end:%s}" % P \
+                and not nf.all_conditions(t, pushes[0], stop=fls[0]["loop"]) and fls[0]["pat"].get("k") == "Bind":
+            v = fls[0]["pat"]["name"]
+            # the pushed expression with the immutable locals of the loop body (and of the function) substituted
+            expr = pushes[0]["args"][0]
+            env_lets = {}
+            for st in user_nodes(fn):
+                if st["k"] == "Let" and st["pat"].get("k") == "Bind" and "Mut" not in st["pat"].get("mode", "") and "init" in st:
+                    env_lets[st["pat"]["name"]] = st["init"]
+
+            def evl(e, t_):
+                env = {P: n, v: t_}
+                # resolve immutable lets on demand (they only depend on the parameter and the loop variable)
+                for _ in range(4):
+                    try:
+                        return symeval.ev(e, env)
+                    except symeval.NotConst as ex:
+                        nm = str(ex).split()[-1].strip("`'\"")
+                        if nm in env_lets and nm not in env:
+                            env[nm] = evl(env_lets[nm], t_)
+                        else:
+                            raise
+                return symeval.ev(e, env)
+            return [evl(expr, t_) for t_ in range(n)]
     return None
 
 
